@@ -383,7 +383,7 @@ def simulate_difference(pairs, pc, seed=0):
     rng = random.Random(seed)
     cands = corner_assignments(names, rng, nrand=1)
     # cheap order: one random vector first (a wrong core differs on almost every input), then the carry corners
-    cands = [cands[8]] + cands[:4] + cands[9:12] + cands[12:15]
+    cands = [cands[8]] + cands[:2] + cands[12:13]
     for asg in cands:
         ev = T.Evaluator(asg)
         ok = True
@@ -626,3 +626,138 @@ def merge_small_cones(pairs, pc=(), maxcone=12, seed=0, solve=None, maxcand=400)
     flat = rebuild(vals, mapping)
     newpairs = [(flat[2 * i], flat[2 * i + 1]) for i in range(len(pairs))]
     return newpairs, len(mapping), nq
+
+
+def discover_aliases(pairs, pc=(), maxcone=12, seed=0, solve=None, maxcand=600, both_sides=False):
+    """find small-cone equalities between the reference side (second components) and the implementation side (first
+    components) by simulation signature, prove them with the solver, and return them as construction-time aliases
+    (reference entity -> implementation form): (node_alias {nid: value}, slice_alias {nid: [(lo, n, value)]}, n_queries)"""
+    impl_vals = [g for g, e in pairs]
+    spec_vals = [e for g, e in pairs]
+    roots_i = set()
+    for v in impl_vals:
+        roots_i.update(T.value_deps(v))
+    roots_s = set()
+    for v in spec_vals:
+        roots_s.update(T.value_deps(v))
+    roots = set(roots_i) | set(roots_s)
+    for c, _ in pc:
+        roots.update(T.value_deps(c))
+    level, order = _levels(roots)
+    li, oi = _levels(roots_i)
+    impl_nodes = set(oi)
+    csize = _cone_sizes(order)
+    # control cones only: nodes that depend on narrow variables (counters, lengths, positions) and on nothing wide (keys,
+    # chaining values, message bytes) - that is where optimiser-dependent arithmetic shapes live
+    narrow = {}
+    for j in order:
+        op, w, args = T.nodes[j]
+        if op == 'var':
+            narrow[j] = w <= 128
+        else:
+            narrow[j] = all(narrow[d] for d in T.node_deps(j))
+    cheap = [j for j in order if T.nodes[j][0] != 'var' and csize[j] <= maxcone and narrow[j]]
+    if not cheap:
+        return {}, {}, 0
+    names = {T.nodes[j][2]: T.nodes[j][1] for j in order if T.nodes[j][0] == 'var'}
+    rng = random.Random(seed)
+    pcvars = T.support([c for c, v in pc])[0] if pc else set()
+    evals = []
+    for a in corner_assignments(names, rng, nrand=2):
+        ev = T.Evaluator(a)
+        ok = all(ev.val(c) == (1 if v else 0) for c, v in pc)
+        tries = 0
+        while not ok and tries < 40:
+            tries += 1
+            a2 = dict(a)
+            for n in pcvars:
+                a2[n] = rng.getrandbits(names[n]) if tries % 2 else biased(rng, names[n])
+            ev = T.Evaluator(a2)
+            ok = all(ev.val(c) == (1 if v else 0) for c, v in pc)
+        if ok:
+            evals.append(ev)
+    if len(evals) < 4:
+        return {}, {}, 0
+
+    def entities(j):
+        w = T.nodes[j][1]
+        out = [(0, w)]
+        for g in (32, 64):
+            if w > g and w % g == 0 and w <= 1024:
+                out += [(g * i, g) for i in range(w // g)]
+        return out
+    proved = []
+    nq = 0
+    done = set()
+    # counterexample-guided refinement (as in SAT sweeping): a refuted candidate's model becomes a new simulation vector
+    for rnd in range(4):
+        def sig(v):
+            return (T.width(v),) + tuple(ev.val(v) for ev in evals)
+        cands = {}
+
+        def addc(v, rank):
+            s_ = sig(v)
+            cur = cands.get(s_)
+            if cur is None or rank < cur[0]:
+                cands[s_] = (rank, v)
+        for j in order:
+            if T.nodes[j][0] == 'var':
+                f = T.full(j)
+                for a, m in entities(j):
+                    addc(T.extract(f, a, m), (0, 0, j, a))
+        for j in cheap:
+            if both_sides or j in impl_nodes:
+                f = T.full(j)
+                for a, m in entities(j):
+                    addc(T.extract(f, a, m), (1 if m == T.nodes[j][1] else 2, csize[j], j, a))
+        obligations = []
+        for j in cheap:
+            if j in impl_nodes and not both_sides:
+                continue
+            f = T.full(j)
+            for a, m in entities(j):
+                if (j, a, m) in done:
+                    continue
+                e = T.extract(f, a, m)
+                hit = cands.get(sig(e))
+                if hit is not None and hit[1] != e and j not in set(T.value_deps(hit[1])):
+                    if both_sides and not (hit[0] < (1 if m == T.nodes[j][1] else 2, csize[j], j, a)):
+                        continue
+                    obligations.append(((j, a, m), e, hit[1]))
+            if len(obligations) >= maxcand:
+                break
+        if not obligations:
+            break
+        refuted = 0
+        for ob in obligations:
+            nq += 1
+            r = solve([(ob[1], ob[2])], pc)
+            st, model = (r if isinstance(r, tuple) else (r, None))
+            if st == 'unsat':
+                proved.append(ob)
+                done.add(ob[0])
+            elif st == 'sat' and model:
+                refuted += 1
+                asg = {n: model.get(n, 0) for n in names}
+                evals.append(T.Evaluator(asg))
+        if not refuted:
+            break
+    node_alias = {}
+    slice_alias = {}
+    # orientation must be acyclic: a node that serves as (part of) a representative is never rewritten itself
+    used_as_rep = set()
+    rewritten = set()
+    proved.sort(key=lambda ob: (0 if (ob[0][1] == 0 and ob[0][2] == T.nodes[ob[0][0]][1]) else 1, -ob[0][2]))
+    for (j, a, m), e, rep in proved:
+        deps = set(T.value_deps(rep))
+        if j in used_as_rep or (deps & rewritten):
+            continue
+        if a == 0 and m == T.nodes[j][1]:
+            node_alias[j] = rep
+        elif j in node_alias:
+            continue
+        else:
+            slice_alias.setdefault(j, []).append((a, m, rep))
+        rewritten.add(j)
+        used_as_rep |= deps
+    return node_alias, slice_alias, nq
